@@ -88,6 +88,7 @@ package reporting
 //@   requires reporterOK(r) && violation != nil
 //@   assigns r.lineCache[all]
 //@   ensures reporterOK(r) && r.pass == old(r.pass) && r.ignoreSet == old(r.ignoreSet)
+//@   loop 3 invariant i >= 1
 
 //@ func Reporter.ReportViolation
 //@   props C17 C08 C07 C10
